@@ -171,7 +171,10 @@ class Env:
                     return "%sp%04d" % (t, int(kw["x"]))
             self.node_ctr[0] += 1
             return "n%05d" % (self.node_ctr[0] % 100000)
+        self.real_generate = misc.generate     # the library's own id generator (util/nanoid.generate)
+        self.patched_generate = gen
         misc.generate = gen
+        self.id_files = {os.path.realpath(os.path.join(sched.SRC, "util", f)) for f in ("nanoid.py", "misc.py")}
         from django_components import Component
         Component.media  # the base class is resolved once and for all
         self.tasks = {}
@@ -384,6 +387,15 @@ class Env:
 
     # -- one schedule --------------------------------------------------------------------------
     def run_one(self, family, names, sched_list, keymap, timeout=15.0, fine=False, sweep=False, locs=False):
+        import django_components.util.misc as misc
+        realid = bool(family["cfg"].get("realid"))
+        misc.generate = self.real_generate if realid else self.patched_generate
+        try:
+            return self._run_one(family, names, sched_list, keymap, timeout, fine, sweep, locs, realid)
+        finally:
+            misc.generate = self.patched_generate
+
+    def _run_one(self, family, names, sched_list, keymap, timeout, fine, sweep, locs, realid):
         cfg = family["cfg"]
         shared = {}
         if any(s["kind"] == "media" for s in family["threads"]):
@@ -395,8 +407,29 @@ class Env:
         fns = {n: self.make_fn(family["threads"][NAMES.index(n)], shared) for n in names}
         if sweep and self.pkg_files is None:
             self.pkg_files = sched.package_files()
-        out, trace, aborted = sched.run_schedule(self.table, fns, names, sched_list, timeout=timeout, fine=fine or sweep,
-                                                 fine_files=self.pkg_files if sweep else None, locs=locs)
+        out, trace, aborted = sched.run_schedule(self.table, fns, names, sched_list, timeout=timeout, fine=fine or sweep or realid,
+                                                 fine_files=self.pkg_files if sweep else None, locs=locs,
+                                                 line_only=self.id_files if (realid and not sweep) else None)
+        ids = {}
+        if realid:
+            # ids are random here: every thread's ids are read off its own anchor events, and outputs are compared
+            # modulo ids (renamed in order of first appearance)
+            for t, a, d in trace:
+                if a in ("CctxPut", "ProvPut") and d:
+                    ids.setdefault(t, [])
+                    if d not in ids[t]:
+                        ids[t].append(d)
+            allids = [i for t in sorted(ids) for i in ids[t]]
+
+            def canon(txt):
+                found = sorted({(txt.find(i), i) for i in allids if i in txt})
+                for k, (_, i) in enumerate(found):
+                    txt = txt.replace(i, "ID%d" % k)
+                return txt
+            for n in list(out):
+                o = out[n]
+                if o[0] == "ok" and isinstance(o[1], str):
+                    out[n] = ("ok", canon(str(o[1])))
         res = {}
         for n in names:
             o = out.get(n, ("abort", None))
@@ -407,7 +440,7 @@ class Env:
             else:
                 res[n] = ["abort"]
         obs = self.observe(cfg, family, keymap, shared)
-        return {"res": res, "trace": [list(t) for t in trace], "aborted": aborted, "obs": obs}
+        return {"res": res, "trace": [list(t) for t in trace], "aborted": aborted, "obs": obs, "ids": ids}
 
 
 _ENV = None
@@ -488,21 +521,36 @@ def sweep_families(tier):
     """Task pairs for the line-granularity single-pre-emption sweep (default cache size, every template compiled)."""
     S = []
 
-    def sf(name, threads, **kw):
+    def sf(name, threads, park=None, **kw):
         f = fam(name, threads, cap=128, **kw)
         f["cfg"]["pre_all"] = True
         f["sweep"] = True
+        f["park"] = park            # which threads are parked (None = each in turn); symmetric pairs need one direction only
         S.append(f)
-    sf("sweep-slotfill-slotfill", [slot_task("xa", "fill"), slot_task("xb", "fill")])
+    sf("sweep-slotfill-slotfill", [slot_task("xa", "fill"), slot_task("xb", "fill")], park=["A"])
     sf("sweep-slotfill-slotdefault", [slot_task("xa", "fill"), slot_task("xd", "default")])
-    sf("sweep-plain-plain", [T_PLAIN, T_PLAIN2])
-    sf("sweep-inj-inj", [T_INJ, T_INJ2])
+    sf("sweep-plain-plain", [T_PLAIN, T_PLAIN2], park=["A"])
+    sf("sweep-inj-inj", [T_INJ, T_INJ2], park=["A"])
     sf("sweep-nest-failp", [T_NEST, T_FAILP])
-    sf("sweep-media-media", [T_MEDIA, T_MEDIA])
+    sf("sweep-media-media", [T_MEDIA, T_MEDIA], park=["A"])
     # both threads render the SAME Template object, compiled for this run, for the FIRST time: tag arguments are
     # compiled lazily at first render and that state lives on the nodes of the shared template
-    sf("sweep-shared-template-first-render", [{"kind": "shared", "name": "xs"}, {"kind": "shared", "name": "xs"}])
+    sf("sweep-shared-template-first-render", [{"kind": "shared", "name": "xs"}, {"kind": "shared", "name": "xs"}], park=["A"])
     return S
+
+
+def realid_families(tier):
+    """Families run with the library's OWN id generator (nothing mocked): steps = the anchors + every line of util/nanoid.py and
+    util/misc.py.  Ids are random, so these are judged by the direct oracle only (outputs modulo ids, distinct ids)."""
+    R = []
+    for name, threads in (("realid-plain-plain", [T_PLAIN, T_PLAIN2]),
+                          ("realid-inj-inj", [T_INJ, T_INJ2])):
+        f = fam(name, threads, cap=128)
+        f["cfg"]["pre_all"] = True
+        f["cfg"]["realid"] = True
+        f["realid"] = True
+        R.append(f)
+    return R
 
 
 def families(tier):
@@ -775,7 +823,7 @@ def preemptions(trace, names):
 # ---------------------------------------------------------------------------------------------------------------
 def run_rec(e, family, names, segs, keymap, fine=False, sweep=False, locs=False):
     rec = e.run_one(family, names, [tuple(x) for x in segs], keymap, fine=fine, sweep=sweep, locs=locs)
-    rec["fine"] = fine or sweep
+    rec["fine"] = fine or sweep or bool(family["cfg"].get("realid"))
     rec["sweep"] = sweep
     rec["names"] = names
     rec["segs"] = [list(s) for s in segs]
@@ -803,12 +851,23 @@ def digest(family, rec, keymap):
     ex = sched.compress([t[0] for t in rec["trace"]])
     bad = interference(family, rec, solo)
     trg = triggers(family, rec)
+    dup = []
+    if family["cfg"].get("realid"):
+        ids = rec.get("ids", {})
+        ts = sorted(ids)
+        for a in range(len(ts)):
+            for b in range(a + 1, len(ts)):
+                for i in ids[ts[a]]:
+                    if i in ids[ts[b]]:
+                        dup.append([i, ts[a], ts[b]])
+        if dup:
+            bad.insert(0, "the same render/provide id was handed to renders running concurrently in different threads: %s" % dup)
     rec["rank"] = diff_rank(rec["trace"])
     with_labels = bool(bad) or (sum(k for _, k in ex) + len(ex)) % 10 == 0
     fine = rec.get("fine", False)
     d = {"ex": [list(x) for x in ex], "bad": bad, "trg": trg, "npre": preemptions(rec["trace"], rec["names"]),
          "f3": bool(rec.get("exposed_by_register_empty_check")), "res": rec["res"], "segs": rec["segs"], "fine": fine,
-         "sweep": bool(rec.get("sweep")),
+         "sweep": bool(rec.get("sweep")), "dupid": dup,
          "term": None if fine else case_term(family, rec, keymap, tts, solo, label_codes_cached(), with_labels)}
     if bad:
         d["replay"] = {"family": family, "segs": rec["segs"], "fine": fine, "sweep": d["sweep"],
@@ -877,6 +936,45 @@ def job_sweep_plan(args):
         plan[x] = {"positions": ns, "line_events": len(steps),
                    "distinct_lines": len({t[2] for t in steps if t[1] == "_"})}
     return plan
+
+
+def job_realid_plan(family):
+    """Pre-emption points of thread X.  `gen`: before the first execution of every distinct source line within each call of
+    the id generator (the per-byte loop repeats its lines), and right after the call.  `all`: those plus every anchor."""
+    e = env()
+    keymap = family_keymap(family)
+    names = [NAMES[k] for k in range(len(family["threads"]))]
+    plan = {}
+    for x in names:
+        rec = run_rec(e, family, [x], [], keymap, locs=True)
+        steps = [t for t in rec["trace"] if t[0] == x]
+        gen, seen = set(), set()
+        for i, t in enumerate(steps):
+            if t[1] == "_":
+                if t[2] not in seen:
+                    seen.add(t[2])
+                    gen.add(i)
+                if i + 1 == len(steps) or steps[i + 1][1] != "_":
+                    gen.add(i + 1)
+                    seen = set()
+        anchors = {i for i, t in enumerate(steps) if t[1] != "_"}
+        plan[x] = {"gen": sorted(gen), "all": sorted(p for p in gen | anchors if p > 0), "steps": len(steps),
+                   "id_generator_lines": sum(1 for t in steps if t[1] == "_")}
+    return plan
+
+
+def job_realid(args):
+    """X^i Y^j X* Y*: X pre-empted at a line of the id generator, Y pre-empted at one of its anchors or generator lines."""
+    family, x, y, positions, js = args
+    e = env()
+    keymap = family_keymap(family)
+    names = [NAMES[k] for k in range(len(family["threads"]))]
+    out = []
+    for i in positions:
+        for j in js:
+            rec = run_rec(e, family, names, [(x, i), (y, j), (x, HUGE), (y, HUGE)], keymap)
+            out.append(digest(family, rec, keymap))
+    return out
 
 
 def job_sweep(args):
@@ -1004,6 +1102,8 @@ def _dispatch(job):
     kind, args = job
     if kind == "sweep":
         return job_sweep(args)
+    if kind == "realid":
+        return job_realid(args)
     return job_enum2(args) if kind == "enum" else job_list(args)
 
 
@@ -1024,6 +1124,11 @@ def classify(chk, family, d, stats, where):
     if not bad:
         return
     replay = dict(d["replay"], where=where)
+    if d.get("dupid"):
+        # ids are what keeps renders apart: a shared id is never explained by one of the known classes
+        chk.fail("c07-id-shared-by-concurrent-renders", "; ".join(bad), replay)
+        stats["shared-id"] += 1
+        return
     if not trg:
         chk.fail("c07-interference-outside-known-classes", "; ".join(bad), replay)
         stats["outside"] += 1
@@ -1090,10 +1195,26 @@ def run(tier, seed):
             names = [NAMES[k] for k in range(len(f["threads"]))]
             chk.extra.setdefault("line_sweep", {})[f["name"]] = {x: {k: v for k, v in plan[x].items() if k != "positions"} |
                                                                    {"parked_at": len(plan[x]["positions"])} for x in names}
-            for x in names:
+            for x in (f.get("park") or names):
                 pos = plan[x]["positions"]
                 for c in range(0, len(pos), 25):
                     alljobs.append((fi, ("sweep", (f, x, [y for y in names if y != x], pos[c:c + 25]))))
+        # the real id generator inside the scheduled region
+        rfams = realid_families(tier)
+        rplans = pool.map(job_realid_plan, rfams)
+        for f, plan in zip(rfams, rplans):
+            fi = len(fams)
+            fams.append(f)
+            names = [NAMES[k] for k in range(len(f["threads"]))]
+            chk.extra.setdefault("realid", {})[f["name"]] = {
+                x: {"steps": plan[x]["steps"], "id_generator_lines": plan[x]["id_generator_lines"],
+                    "preempted_in_generator_at": len(plan[x]["gen"]), "other_thread_preempted_at": len(plan[x]["all"])} for x in names}
+            for x in names[:1]:                   # the two tasks of a realid family have the same shape: one order
+                for y in names:
+                    if x != y:
+                        pos = plan[x]["gen"]
+                        for c in range(0, len(pos), 2):
+                            alljobs.append((fi, ("realid", (f, x, y, pos[c:c + 2], plan[y]["all"] + [plan[y]["steps"] + 6]))))
         results = pool.map(_dispatch_safe, [j for _, j in alljobs], chunksize=4)
     for (fi, _), recs in zip(alljobs, results):
         family = fams[fi]
